@@ -558,7 +558,7 @@ def _some_dependency_actual(r, vb, aop, cv, ct=None):
                                 if z[0] == "param" and z[1] - 1 < len(ct["args"]):
                                     ids |= _set_ids(cv.prov.operand_atoms(ct["args"][z[1] - 1], interproc=False))
     ids = {i for i in ids if i[1] not in ("unavailable_dependencies", "requesters", "self")}
-    Rok = msg_region(cv, "Ok") if cv in r.actors() else set()
+    Rok = msg_region(cv, "Ok") if r.is_role(r.actors(), cv) else set()
     G = guard_region(cv, lambda d: d[0] == "field" and d[1] == "actual", True)
     found = False
     for cb, t in cv.calls():
@@ -600,10 +600,11 @@ def actual_provenance(ctx):
                         ctx.check(ok, ci, [site(b, bb), site(cv, cbb)], "an aggregate's `actual` is not 'some dependency reported an actual build/service of this kind': " + why3, props=["C11", "C20"])
                 continue
             idiom, why = classify_ok_site(r, b, bb, st)
-            if idiom is None and b in r.actors() and r.actor_kinds(b):
-                Rreq = msg_region(b, "Requested")
-                subs = kind_subregions(b, Rreq, "Requested")
-                foreign = any(k not in r.actor_kinds(b) and k != "*" and bb in blks for k, blks in subs.items())
+            if idiom is None and r.is_role(r.actors(), b) and r.actor_kinds(b):
+                av = next(v for v in r.actors() if v.name == b.name)
+                Rreq = msg_region(av, "Requested")
+                subs = kind_subregions(av, Rreq, "Requested")
+                foreign = any(k not in r.actor_kinds(av) and k != "*" and bb in blks for k, blks in subs.items())
                 if foreign and not is_const(aop, "false"):
                     ctx.bad(inst, [site(b, bb)], "a reply for a kind this actor does not execute claims an actual build/service: a build-only request would keep zinoma alive", props=["C11"])
                 continue
@@ -704,7 +705,8 @@ def task_per_actor(ctx):
         spawned = [u for u in uses if u[0] == "spawn"]
         callers = r.callers_of(a)
         inline = [(cb, bb) for (cb, bb, t) in callers if await_of_call(cb, bb) is not None]
-        ctx.check(bool(spawned) and not inline and len(spawned) == len(callers), f"{r.actor_label(a)}", [site(f.bodies[u[1]], u[2]) for u in spawned] or [a.loc()],
+        raw_sites = {(cb.origin(bb), cb.blocks[bb].get("orig_id", bb)) for (cb, bb, t) in callers}   # a launcher spliced in at several places is one call site
+        ctx.check(bool(spawned) and not inline and len(spawned) == len(raw_sites), f"{r.actor_label(a)}", [site(f.bodies[u[1]], u[2]) for u in spawned] or [a.loc()],
                   "the actor is not run as its own task (awaited inline or blocked on): targets would run one after the other")
 
 
@@ -779,7 +781,7 @@ def roots_upfront(ctx):
     relays = {r.fn_of(x).name for x in r.relays()}
     n = 0
     for b in f.user_bodies():
-        if not b.coroutine or b in r.relays():
+        if not b.coroutine or r.is_role(r.relays(), b):
             continue
         calls_relay = [bb for bb, t in b.calls() if callee_base(t) in relays]
         if not calls_relay:
